@@ -90,3 +90,45 @@ def dirty_raises(ctx, entry, protected=PROTECTED, max_paths=6000):
             if w not in rep['writes']:
                 rep['writes'].append(w)
     return list(reports.values()), nraise, len(ps)
+
+
+def raise_signature(M, exc):
+    """Stable identity of a refusing site: class owning the raise, exception class, and the leaf names its guard compares.
+    Independent of line numbers, of the function name inside the class (a guard extracted into a helper keeps its identity)
+    and of how the guard is spelled structurally."""
+    import ast
+    if not exc or len(exc) < 4:
+        return ('?', '?', ())
+    _, cls, site, fqn = exc[:4]
+    fn = M.funcs.get(fqn)
+    owner = fn.cls.name if fn is not None and fn.cls is not None else (fqn.rsplit('.', 1)[0] if fn is not None else '?')
+    leaves = set()
+    if fn is not None:
+        try:
+            line = int(site.rsplit(':', 1)[1])
+        except Exception:
+            line = -1
+        target = None
+        for n in ast.walk(fn.node):
+            if isinstance(n, ast.Raise) and n.lineno == line:
+                target = n
+        if target is not None:
+            # innermost enclosing tests
+            def find(node, chain):
+                here = chain + [node.test] if isinstance(node, (ast.If, ast.While)) else chain
+                for ch in ast.iter_child_nodes(node):
+                    if ch is target:
+                        return here
+                    r = find(ch, here)
+                    if r is not None:
+                        return r
+                return None
+            chain = find(fn.node, []) or []
+            for t in chain[-1:]:
+                for x in ast.walk(t):
+                    # state fields read by the guard, module-level names and literal constants: stable under renaming of locals/parameters
+                    if isinstance(x, ast.Attribute) and isinstance(x.value, ast.Name) and x.value.id in ('self', 'np', 'numpy', 'math', 'settings'):
+                        leaves.add(x.attr)
+                    elif isinstance(x, ast.Constant) and isinstance(x.value, (int, float)) and not isinstance(x.value, bool):
+                        leaves.add('const:%g' % x.value)
+    return (owner, cls, tuple(sorted(leaves)))
